@@ -148,14 +148,20 @@ theorem choi_conversions_linear (B : Basis K d (d * d)) (a : K) (x y : Mat K (d 
   · simp [choiSparse, mulVec_add, mulVec_smul, unflat_add, unflat_smul, flat_add, flat_smul]
   · simp [hsOfChoiSparseRaw, mulVec_add, mulVec_smul, unflat_add, unflat_smul, flat_add, flat_smul]
 
-/-! ## variables <-> Choi (DESIGN §5-D3) -/
+/-! ## variables <-> Choi (DESIGN §5-D3, repaired in /repo 15e40aa) -/
 
-/-- what `to_var_from_choi` is documented to be (Choi → HS → variables) is the inverse of
-`to_choi_from_var` for an orthonormal basis (`on_para_eq_constraint=False`). -/
-theorem toVarFromChoi_intended_roundtrip (B : Basis K d (d * d)) (h : Orthonormal B)
-    (v : Vec K ((d * d) * (d * d))) :
-    toVarFromChoiFreeIntended B (toChoiFromVarFree B v) = v := by
-  simp [toVarFromChoiFreeIntended, toChoiFromVarFree, (hs_choi_hs B h (unflat v)).1]
+/-- `to_var_from_choi ∘ to_choi_from_var = id` for an orthonormal basis, both settings of
+`on_para_eq_constraint` (values before `truncate_hs`; see `truncEntry_real`). A body that applies the
+forward conversion instead (the former defect) fails this on `B0`, see `forward_is_not_inverse`. -/
+theorem toVarFromChoi_roundtrip (B : Basis K d (d * d)) (h : Orthonormal B)
+    (v : Vec K ((d * d) * (d * d))) (w : Vec K ((d * d - 1) * (d * d))) :
+    toVarFromChoiFreeRaw B (toChoiFromVarFree B v) = v ∧
+    toVarFromChoiEqRaw B (toChoiFromVarEq B w) = w := by
+  constructor
+  · simp [toVarFromChoiFreeRaw, toChoiFromVarFree, (hs_choi_hs B h (unflat v)).1]
+  · simp only [toVarFromChoiEqRaw, toChoiFromVarEq, (hs_choi_hs B h (varToHsEq w)).1]
+    apply Vec.ext'; intro x
+    simp [hsToVarEq, varToHsEq]
 
 /-- Hermitian orthonormal basis of the 2×2 matrices with Gaussian-rational entries:
 `E₀₀, ((1+i)E₀₁+(1−i)E₁₀)/2, ((1−i)E₀₁+(1+i)E₁₀)/2, E₁₁`. -/
@@ -171,11 +177,11 @@ theorem B0_orthonormal : Orthonormal B0 := by
 theorem B0_hermitian : HermitianBasis B0 := by
   intro a i j; revert a i j; decide +kernel
 
-/-- **the code as it is does not satisfy the round trip**: `to_var_from_choi` applies the forward
-conversion; on the orthonormal Hermitian basis `B0` and the variable vector `e₅` (HS = unit matrix
-`E₁₁`) the result differs from the input, while the intended inverse returns it. -/
-theorem toVarFromChoi_roundtrip_fails :
-    ¬ (∀ v : Vec CRat ((2 * 2) * (2 * 2)), toVarFromChoiFree B0 (toChoiFromVarFree B0 v) = v) := by
+/-- regression witness for the former defect D3: applying the *forward* conversion a second time is not
+the inverse — on the orthonormal Hermitian basis `B0` and the variable vector `e₅` (HS = unit matrix `E₁₁`)
+`flat (choiSparse B0 (choiSparse B0 (unflat v))) ≠ v`. -/
+theorem forward_is_not_inverse :
+    ¬ (∀ v : Vec CRat ((2 * 2) * (2 * 2)), flat (choiSparse B0 (toChoiFromVarFree B0 v)) = v) := by
   intro h
   have := h (Vec.ofFn fun x => if x.val = 5 then 1 else 0)
   revert this
@@ -186,22 +192,27 @@ theorem hsToVar_varToHs {n : Nat} (var : Vec K ((n - 1) * n)) : hsToVarEq (varTo
   apply Vec.ext'; intro x
   simp [hsToVarEq, varToHsEq]
 
-/-! ## POVM element access (DESIGN §5-D2) -/
+/-! ## POVM element access (DESIGN §5-D2, repaired in /repo da605d0) -/
 
-/-- `Povm.matrix(i)` returns `Σ_a vecs[i]_a B_a` for every valid index … -/
-theorem povmMatrix_ok {d n : Nat} (B : Basis CRat d n) (vecs : List (Vec CRat n)) (i : Nat)
-    (hi : i < vecs.length) : povmMatrix B vecs i = .ok (densityLoop B vecs[i]) := by
-  simp [povmMatrix, hi]
+/-- `Povm.matrix(i)` returns `Σ_a vecs[i]_a B_a` for every valid index and raises IndexError otherwise. -/
+theorem povmMatrix_ok {d n : Nat} (B : Basis CRat d n) (vecs : List (Vec CRat n)) (i : Nat) :
+    (∀ hi : i < vecs.length, povmMatrix B vecs i = .ok (densityLoop B vecs[i])) ∧
+    (vecs.length ≤ i → povmMatrix B vecs i = .error .indexError) := by
+  constructor
+  · intro hi; simp [povmMatrix, hi]
+  · intro hi; simp [povmMatrix, List.getElem?_eq_none hi]
 
-/-- … while `Povm.matrix_with_sparsity(i)` raises `NameError` on every valid index: the two
-"alternative implementations" never agree. -/
-theorem povmMatrixSparse_fails {d n : Nat} (B : Basis CRat d n) (vecs : List (Vec CRat n)) (i : Nat)
-    (hi : i < vecs.length) :
-    povmMatrixSparse B vecs i = .error .nameError ∧ povmMatrixSparse B vecs i ≠ povmMatrix B vecs i := by
-  have h1 : povmMatrixSparse B vecs i = .error .nameError := by simp [povmMatrixSparse, hi]
-  refine ⟨h1, ?_⟩
-  rw [h1, povmMatrix_ok B vecs i hi]
-  intro h; cases h
+/-- the alternative implementation `Povm.matrix_with_sparsity(i)` agrees with `Povm.matrix(i)` on every
+index, valid or not (same element, same error). -/
+theorem povm_matrix_variants_agree {d n : Nat} (B : Basis CRat d n) (vecs : List (Vec CRat n)) (i : Nat) :
+    povmMatrixSparse B vecs i = povmMatrix B vecs i := by
+  unfold povmMatrixSparse povmMatrix
+  cases vecs[i]? with
+  | none => rfl
+  | some v =>
+    have := (density_variants_agree B v).1
+    simp only []
+    rw [← this]
 
 /-! ## change of basis -/
 
